@@ -1,4 +1,5 @@
 import OrbitModel.Driver.Parse
+import OrbitModel.Model.Decode
 /-!
 # Driver world: replays a trace through the L0 model (correspondence) and evaluates the L1
 predicates on the implementation's own observations (specification).
@@ -168,6 +169,32 @@ def World.onLoadEnd (w : World) (toks : List String) : World :=
   let p := peerNum (toks.getD 1 "")
   let logs := parseLogs w (toks.getD 2 "")
   w.setStore p ((w.store p).loadEnd w.acl logs)
+
+/-- the heads of the announcement being handled, with the tampered ones (`eN!`) marked -/
+def World.opHeads (w : World) : Option (List Entry) :=
+  let mk (names : List String) : List Entry := names.filterMap (fun n =>
+    (w.entry (entryNum (n.replace "!" ""))).map (fun e => if n.endsWith "!" then { e with hashOk := false } else e))
+  match w.pending.headD "" with
+  | "inject" => some (mk (commaList (arg w.pending "heads")))
+  | "sync" => w.syncSrc.map (fun (q, _) => sortedHeads (w.store q).log)
+  | "pubdeliver" | "exchange" => w.msgHeads.map (fun hs => w.entriesOf hs)
+  | _ => none
+
+/-- `loadq p <heads>`: what `Sync` handed to the replicator, compared with the model of `Sync`
+(`syncHeads`: complete heads the access controller admits; nothing if a head's hash does not match) -/
+def World.onLoadQ (w : World) (toks : List String) : World :=
+  let p := peerNum (toks.getD 1 "")
+  let impl := namesToNums (toks.getD 2 "-")
+  if w.nDb != 1 then w else
+  match w.opHeads with
+  | none => w
+  | some hs =>
+    let raw : List RawHead := hs.map (fun e => { entry := e })
+    match syncHeads w.acl raw [] with
+    | SyncOutcome.load es =>
+      let model := es.map (·.hash)
+      if model != impl then w.fail "corr" "loadq" s!"peer {p}: Sync hands {showNums impl} to the replicator, model {showNums model}" else w
+    | _ => w.fail "corr" "loadq" s!"peer {p}: Sync hands {showNums impl} to the replicator, the model refuses the message"
 
 def World.onSynced (w : World) (toks : List String) : World :=
   let p := peerNum (toks.getD 1 "")
@@ -504,6 +531,7 @@ def World.step (w : World) (line : String) : World :=
   | "ackbatch" => w.onAckBatch toks
   | "heads" => w.onHeads toks
   | "loadend" => w.onLoadEnd toks
+  | "loadq" => w.onLoadQ toks
   | "synced" => w.onSynced toks
   | "obs" => w.onObs toks
   | "result" => w.onResult toks
